@@ -179,6 +179,7 @@ theorem backing_removeUnits {Pu nD eD lu w n e left : Nat} (hw : 0 < w) (hwP : w
   have se := side_after_ge (Do := nD) hw hwP he be
   have hPu : (0 : ℚ) < (Pu : ℚ) := by exact_mod_cast Nat.lt_of_lt_of_le hw hwP
   unfold backingOK
+  rw [if_pos (Nat.sub_le _ _)]
   simp only [decide_eq_true_eq]
   have key : ((nD * eD * ((Pu - w) * (Pu - w)) : Nat) : ℚ) ≤
       (((nD - n + dust nD eD (nD - n)) * (eD - e + dust eD nD (eD - e)) * (Pu * Pu) : Nat) : ℚ) := by
